@@ -17,7 +17,9 @@ CLAIM = {
              "zero entry), C04_range (the recomputed balance over [start,end) is, per account and commodity, the sum over the postings "
              "of transactions dated in the range; no zero entries), C04_additive (reports over [s,m) and [m,e) add up to the report "
              "over [s,e), any end unbounded, empty ranges included), register_total (the register's final running total is the sum of "
-             "the listed amounts). Tied to /repo by (1) the process correspondence stream and (2) a query stream: for each accepted "
+             "the listed amounts), C04_agree / C04_additive_process (for every entry list accepted by `process`: whole-history balance = "
+             "balance recomputed over the unbounded range = per-account sum of the register, and additivity of adjacent ranges with "
+             "no side condition left). Tied to /repo by (1) the process correspondence stream and (2) a query stream: for each accepted "
              "generated ledger, Ledger::balance for all (start,end) pairs drawn from {none, day before first, every transaction date, "
              "day after last} and the register are compared with the model's balanceNoConv / register computed from the "
              "implementation's own transactions; an independent python oracle re-sums the postings (range membership, zero removal, "
@@ -27,7 +29,7 @@ CLAIM = {
     "design_ref": "DESIGN.md section 6, C04",
 }
 
-THEOREMS = ["Okane.C04_raw", "Okane.RawOK_processFrom", "Okane.txn_balance", "Okane.C04_nozero", "Okane.C04_range", "Okane.C04_additive", "Okane.register_total",
+THEOREMS = ["Okane.C04_raw", "Okane.C04_agree", "Okane.C04_additive_process", "Okane.processFrom_PostingsWF", "Okane.RawOK_processFrom", "Okane.txn_balance", "Okane.C04_nozero", "Okane.C04_range", "Okane.C04_additive", "Okane.register_total",
             "Okane.selSum_split", "Okane.rangeFold", "Okane.acctSum_modify_empty", "Okane.loop_unfilled_empty"]
 
 OKF = ["plain", "omitted", "cost", "lot", "pair", "assign", "assert", "expr", "multi-omitted", "assign-zero", "total-cost"]
